@@ -18,6 +18,8 @@ def plan(tier, seed):
     for J in (1, 2, 3):
         gs.append(Group('DTCWTForward[J=%d]' % J, MD.g_dtcwt_forward, (J, 2, -1, 'default'), level='bounded-in-J', replay=rp('dtcwt_pr')))
         gs.append(Group('DTCWTInverse[J=%d]' % J, MD.g_dtcwt_inverse, (J, 2, -1, 'none'), level='bounded-in-J', replay=rp('dtcwt_pr')))
+    gs.append(Group('DTCWTForward[J symbolic]', MD.g_dtcwt_forward_symJ, (2, -1, False, False), functions=[(T2, 'DTCWTForward.forward')], replay=rp('dtcwt_pr')))
+    gs.append(Group('DTCWTInverse[J symbolic]', MD.g_dtcwt_inverse_symJ, (2, -1), functions=[(T2, 'DTCWTInverse.forward')], replay=rp('dtcwt_pr')))
     # (2) perfect reconstruction of the reference recursion
     gs.append(Group('LEMMA:c2q(q2c(y))==y', D.g_q2c_roundtrip))
     gs.append(Group('LEMMA:crop-undoes-extension,odd-size-replication', D.g_ext_crop_roundtrip))
